@@ -61,6 +61,10 @@ impl<'p> Painter<'p> {
 //@before <<<if !mode_info.is_empty() {>>>| proof { assert(painter.writer.hist().subrange(0, old(painter).writer.hist().len() as int) =~= old(painter).writer.hist()); lemma_hist_lines_only_text(old(painter).writer.hist(), painter.writer.hist()); }
 
 pub open spec fn mp_known(mp: MergeParents) -> bool { !(mp is Unknown) }
+use vstd::std_specs::cmp::PartialEqSpec;
+/// ASSUMED: `==` / `!=` on `Option<(String, String)>` (std's PartialEq of Option, tuples and String) compares the contents
+pub axiom fn axiom_file_pair_eq()
+    ensures <Option<(String, String)> as PartialEqSpec>::obeys_eq_spec(), forall|a: Option<(String, String)>, b: Option<(String, String)>| #[trigger] a.eq_spec(&b) <==> a == b;
 pub open spec fn mc_empty(m: &MergeConflictLines) -> bool { m.ours@.len() == 0 && m.ancestral@.len() == 0 && m.theirs@.len() == 0 }
 impl<'a> StateMachine<'a> {
     //@ stub src/handlers/merge_conflict.rs StateMachine::handle_unterminated_merge_conflict optional=1 spec=merge.handle_unterminated
@@ -73,11 +77,13 @@ impl<'a> StateMachine<'a> {
     //@ fn src/handlers/diff_header.rs StateMachine::test_pending_line_with_diff_name
     //@| ensures r == (self.state is DiffHeader || self.source == Source::DiffUnified),  // @C10,C14:a.pending.file.header.exists.only.in.a.diff.header.or.plain.diff.output
     //@ fn src/handlers/diff_header.rs StateMachine::handle_pending_line_with_diff_name spec=diff_header.handle_pending
+    //@before <<<if !self.mode_info.is_empty() {>>>| proof { axiom_file_pair_eq(); }
     //@ fn src/handlers/diff_header.rs StateMachine::test_diff_header_plus_line
     //@| ensures r == hdr_plus_test(self),
     //@|         r ==> self.state is DiffHeader,  // @C14,C01:a.line.is.taken.for.the.plus.header.only.directly.after.the.minus.header.never.inside.a.hunk
     //@ fn src/handlers/diff_header.rs StateMachine::handle_diff_header_plus_line spec=diff_header.handle_plus
     //@rewrite <<<self.painter .set_syntax(>>> => <<<self.painter.set_syntax_for_the_new_name(>>>
+    //@before <<<self.painter.paint_buffered_minus_and_plus_lines(); if self.should_write_generic_diff_header_header_line()? {>>>| proof { axiom_file_pair_eq(); }
     //@ fn src/handlers/diff_header.rs StateMachine::test_diff_header_minus_line
     //@| ensures r ==> (self.state is DiffHeader || self.source == Source::DiffUnified),  // @C01,C04,C14:a.minus.header.is.looked.for.only.in.a.diff.header.or.plain.diff.output
     //@|         r == hdr_minus_test(self),
